@@ -129,6 +129,9 @@ func getClass(class tables.ClassDef, gid gID) uint16 {
 // interprets `value` as an index in coverage array
 func matchCoverage(covs []tables.Coverage) matcherFunc {
 	return func(gid gID, value uint16) bool {
+		if covs[value] == nil { // null offset: Null(Coverage) covers nothing
+			return false
+		}
 		_, covered := covs[value].Index(gid)
 		return covered
 	}
